@@ -361,33 +361,6 @@ func nullReboundNamed(c RTCase) (RTCase, bool) {
 	})
 }
 
-// uniqueNames renames named types so that no name is bound to two different
-// types anywhere in the sequence: the first binding of a name keeps it, the
-// k-th different binding becomes name_k.
-func uniqueNames(c RTCase) (RTCase, bool) {
-	type key struct {
-		name  string
-		inner zed.Type
-	}
-	assigned := map[key]string{}
-	count := map[string]int{}
-	return rewriteSeq(c, func() *rewriter {
-		return &rewriter{name: func(name string, inner zed.Type) string {
-			k := key{name, inner}
-			if n, ok := assigned[k]; ok {
-				return n
-			}
-			count[name]++
-			n := name
-			if count[name] > 1 {
-				n = fmt.Sprintf("%s_%d", name, count[name])
-			}
-			assigned[k] = n
-			return n
-		}}
-	})
-}
-
 func isNamedOfNamed(typ zed.Type, body zcode.Bytes) bool {
 	if n, ok := typ.(*zed.TypeNamed); ok {
 		_, ok := n.Type.(*zed.TypeNamed)
@@ -1120,9 +1093,12 @@ func labelRT(c RTCase, o *vt.Outcome) {
 			break
 		}
 	}
+	keys := make([]string, 0, len(set))
 	for k := range set {
-		o.Label(k)
+		keys = append(keys, k)
 	}
+	slices.Sort(keys)
+	o.Label(keys...)
 }
 
 func runRT(ladder []neutraliser, symptoms []symptom) func(c RTCase) *vt.Outcome {
